@@ -226,7 +226,7 @@ PROPS = {
             "rule X17 (synchronous projection) as for C16",
         ],
         "not_decided": [
-            "what http-types computes for a body, a content type or a query (Body::from_json/from_string/from_form, Request::set_body/set_content_type/set_query: uninterpreted state transformers); unit B proves that every setter of crux_http::Request and of both RequestBuilders hands exactly the value the app gave to exactly one such call and touches nothing else; the header setters (insert_header/append_header with impl ToHeaderValues) are not extracted",
+            "what http-types computes for a body, a content type or a query (Body::from_json/from_string/from_form, Request::set_body/set_content_type/set_query: uninterpreted state transformers); unit B proves that every setter of crux_http::Request and of both RequestBuilders hands exactly the value the app gave to exactly one such call and touches nothing else; the constructors (method, URL) and the header setters (insert/append/remove/set_header, builders' header) are extracted too; what http-types does with impl ToHeaderValues / Into<HeaderName> is uninterpreted",
             "the ORDER of headers in the protocol request is the hash map's iteration order (C11, F6) - C14 compares header sets",
             "that each API call emits exactly one request effect: proved per piece - the endpoint closure of Client::send (capability API) and the lifted task of command::RequestBuilder::build (command API) each ask the shell exactly once with exactly the converted request; `Command::request_from_shell(op).into_future(ctx).await` is an assumed call (its constructor is proved in unit X)",
         ],
@@ -239,9 +239,10 @@ PROPS = {
             "http-types is third-party: Response::new(status) PANICS for a status code its StatusCode enum has no name for (assumed precondition known_status, read off http-types 2.12 response.rs:63), set_body/append_header record what they are given, body_bytes reads the body to its end and leaves status/headers/version alone, is_client_error = 400..=499, is_server_error = 500..=599",
             "rule X17 (synchronous projection) as for C16",
             "unit D: encoding_rs::Encoding::for_label / decode are uninterpreted; borrowed text returned by decode IS the input read as UTF-8 (encoding_rs's documented guarantee, which the body's unsafe from_utf8_unchecked relies on); String::from_utf8 / <[u8]>::is_ascii as assumed specs (only so that a changed body stays within reach)",
+            "unit D/H (round 3): serde_json::from_slice, Mime::param, `s.parse::<Mime>().ok()`, Option::as_deref are assumed (uninterpreted functions of their arguments); From<serde_json::Error> / From<http_types::Error> for HttpError are assumed conversions; Response::body_bytes is assumed in unit D with the contract unit H proves; body_string is assumed in unit H (frame + named result), implied by what unit D proves",
         ],
         "not_decided": [
-            "body expectations: decode_body (the default `encoding` build on native targets) is proved to decode with exactly the encoding the declared charset names (UTF-8 by default), to turn an unknown charset or a malformed body into an error value and to hand on exactly the decoder's text (unit D; encoding_rs uninterpreted; the other two cfg variants of decode_body and body_json / serde_json are not decided)",
+            "body expectations: decode_body (the default `encoding` build on native targets) is proved to decode with exactly the encoding the declared charset names (UTF-8 by default), to turn an unknown charset or a malformed body into an error value and to hand on exactly the decoder's text (unit D; encoding_rs uninterpreted); Response::body_string (unit D) is proved to pass exactly the charset parameter of the last Content-Type value to decode_body, body_bytes / body_json / the three ResponseExpectation::decode impls (unit H) to take the stored bytes as they are, hand exactly them to serde_json and keep status, headers, version; the other two cfg variants of decode_body and what serde_json / Mime::param / media-type parsing compute are not decided",
             "capability API: RequestBuilder::send is proved to send the request once, call the event constructor once, send one outcome event and pass a chain error through unchanged; that the success outcome IS Response::new(..).and_then(decode) composed is proved only piecewise (Response::new's contract, the decode closure's contract, Result::and_then assumed), not as one equation",
             "command API: the lifted task of build() is proved to ask the shell once and to pass a shell error through unchanged; the success arm as above",
         ],
